@@ -8,7 +8,7 @@ from .. import symjax as sj
 from ..harness import Conc, close
 from ..refsem import Ref
 from ..templates import build, permuted, renamed, with_functions
-from .pipeline import is_tagged, abstraction_maps, confirm_crash, default_values, get_function, prove_side_conditions, replace_topdown
+from .pipeline import composed_fallback, is_tagged, abstraction_maps, confirm_crash, default_values, get_function, prove_side_conditions, replace_topdown
 
 META = {
     "explanation": "Pairs of symbolic runs of the real solve function on two write-ups of the same model, same symbolic params; for "
@@ -185,7 +185,8 @@ def u_pair(rec, variant):
                         return {"what": f"equivalent specifications give different values in period {t}", "observed": b, "expected": a, "A": A.name, "B": B.name, "index_A": list(ia), "index_B": list(ib), "inputs": v}
                 return None
 
-            rec.prove(f"V_A[{t}]{list(ia)}==V_B[{t}]{list(ib)}", sj.x_eq(ea2, eb2), assume, replay=replay)
+            full = sj.x_eq(ea, eb) if maps is not None else None
+            rec.prove(f"V_A[{t}]{list(ia)}==V_B[{t}]{list(ib)}", sj.x_eq(ea2, eb2), assume, replay=composed_fallback(rec, S, assume, full, replay))
             n_cmp += 1
         prev = pairs
     return {"bounds": {"A": A.name, "B": B.name, "states_compared": n_cmp}, "symbols": len(S.symbols)}
